@@ -400,21 +400,31 @@ func c05Gen(rng *rand.Rand, tier string, i int) *Sexp {
 		}
 	}
 	env, root := arithGrammar()
+	// the expression's file is, in half of the cases, NOT the first file of its file set (files of any length before it, one
+	// after it): the end of input, the curtailment bound and the error's line:column must not depend on the file's base offset
+	if rng.Intn(2) == 0 {
+		before := []*Sexp{}
+		for k := 1 + rng.Intn(2); k > 0; k-- {
+			before = append(before, L(HS(fmt.Sprintf("g%d", k)), H([]byte(strings.Repeat("1+\n", rng.Intn(40))))))
+		}
+		files := append(before, L(HS("f"), H(in)), L(HS("h"), HS("2*3")))
+		return L(LA("env", env...), LA("root", root), LA("files", files...), LA("target", N(len(before))))
+	}
 	return L(LA("env", env...), LA("root", root), LA("files", L(HS("f"), H(in))), LA("target", N(0)))
 }
 
 func c05Exec(c *Sexp) Outcome {
 	rec := newRecorder(400000)
 	g := buildGrammar(findArg(c, "env"), findArg(c, "root")[0], rec, false, arithInterp, nil)
-	raw0, _ := caseFiles(c)
-	real, val, err, pan := evalCase(c, g.root, [][]byte{[]byte("(1 + 2) * 3"), raw0[0].raw[:len(raw0[0].raw)/2], []byte("7")}, func() { *rec = *newRecorder(400000) })
+	raw0, tgt := caseFiles(c)
+	real, val, err, pan := evalCase(c, g.root, [][]byte{[]byte("(1 + 2) * 3"), raw0[tgt].raw[:len(raw0[tgt].raw)/2], []byte("7")}, func() { *rec = *newRecorder(400000) })
 	if be, ok := pan.(budgetExceeded); ok {
 		// the harness's own work budget (long expressions of the thorough tier): skipped, never counted as a pass —
 		// an earlier version reported it as "Evaluate panicked": a false alarm of the check, corrected
 		return Outcome{Skip: be.why}
 	}
 	files, _ := caseFiles(c)
-	norm := bytes.ReplaceAll(files[0].raw, []byte("\r\n"), []byte("\n"))
+	norm := bytes.ReplaceAll(files[tgt].raw, []byte("\r\n"), []byte("\n"))
 	// reference: recursive descent over the text
 	p := &rdParser{s: norm}
 	want, dz := p.expr()
@@ -733,7 +743,7 @@ func c16Exec(c *Sexp) Outcome {
 func init() {
 	register(&Prop{
 		ID: "C05", Cmd: "eval",
-		Rule: "random arithmetic expressions (depth up to 5, thorough up to 8; + - * / with parentheses where the tree needs them; decimal, hex, octal, signed and extreme literals; spaces, tabs, LF, CRLF in any gap), one in four mutated into a possibly ill-formed string; grammar expr/term/factor built from Memoize, Any, SeqOf, Trim, Integer, Rune, Sentence; oracle = independent recursive-descent evaluator with int64 wrap-around and the position of the offending operator. Non-trivial = well-formed and longer than 6 bytes.",
+		Rule: "random arithmetic expressions, in half of the cases in a file that is not the first of its file set (depth up to 5, thorough up to 8; + - * / with parentheses where the tree needs them; decimal, hex, octal, signed and extreme literals; spaces, tabs, LF, CRLF in any gap), one in four mutated into a possibly ill-formed string; grammar expr/term/factor built from Memoize, Any, SeqOf, Trim, Integer, Rune, Sentence; oracle = independent recursive-descent evaluator with int64 wrap-around and the position of the offending operator. Non-trivial = well-formed and longer than 6 bytes.",
 		Count: quickN(5000, 50000),
 		Gen:   c05Gen,
 		Exec:  c05Exec,
